@@ -29,7 +29,7 @@ CONSTANTS
   MaxRich <- Unlimited
   NCmtCls = 3
   NCppForms = 4
-  NGarb = 7
+  NGarb = 8
   DirectiveCls <- DirCls
 INVARIANT WellNested
 INVARIANT GrammarInNest
